@@ -23,6 +23,8 @@ cases are small schemas dense in user callbacks.
 from __future__ import annotations
 
 import copy
+import json
+import random
 
 import numpy as np
 import pandas as pd
@@ -52,7 +54,11 @@ def dec_cell(x):
 def _meta(c, where):
     """what the monitor needs to know about the check a fault fired in"""
     return {"where": where,
-            "raise_warning": bool((c.get("opts") or {}).get("raise_warning"))}
+            "raise_warning": bool((c.get("opts") or {}).get("raise_warning")),
+            # the check sits on a Column(drop_invalid_rows=True): pandas runs
+            # such a column's checks once to drop rows and once more on the
+            # remaining rows, so one check has several invocations per call
+            "col_drop": bool(c.get("on_drop_column"))}
 
 
 def _pd_custom_check(pa, c, faults, where="column"):
@@ -607,6 +613,40 @@ def _multiindex(rng, spec, table, nrows, tags):
         tags.append("multiindex:no-coerce")
 
 
+def _column_level_drop(spec, table, call, tags, polars):
+    """drop_invalid_rows=True on schema *components* (one or several columns;
+    with call["component"]: the stand-alone Column; for a series case the
+    first field becomes SeriesSchema(drop_invalid_rows=True)).  A component
+    that drops rows validates its data more than once within one validate
+    call (pandas: a row-dropping pass, then a pass on the remaining rows), so
+    every user callback on it has several invocations and a fault at the k-th
+    one may hit either pass.  Requires lazy=True.  The draw comes from a
+    generator of its own (seeded by the case), so the cases drawn so far are
+    what they were before this class existed."""
+    sub = random.Random("c06-column-drop|" + json.dumps(
+        [spec, table, call], sort_keys=True, default=str))
+    if sub.random() >= 0.25:
+        return
+    cols = [fs for fs in spec["columns"] if fs["name"] != GROUP_COL] \
+        or list(spec["columns"])
+    if not cols:
+        return
+    picked = sub.sample(cols, min(len(cols), sub.choice([1, 1, 1, 2, 3])))
+    comp = call.get("component")
+    if comp is not None and spec["columns"][comp] not in picked:
+        picked.append(spec["columns"][comp])
+    for fs in picked:
+        fs["drop_invalid_rows"] = True
+        for c in fs.get("checks") or []:
+            if c.get("kind") == "custom":
+                c["on_drop_column"] = True
+    call["lazy"] = True
+    tags.append("drop_invalid_rows:column")
+    if any(c.get("kind") == "custom" for fs in picked
+           for c in fs.get("checks") or []):
+        tags.append("drop_invalid_rows:column-with-user-check")
+
+
 def callbacks_case(rng, backend):
     """A small schema dense in user callbacks (part B)."""
     polars = backend == "polars"
@@ -718,6 +758,7 @@ def callbacks_case(rng, backend):
         # first column is the regex one when there is one
         call["component"] = rng.choice([0, 0, rng.randrange(len(names))])
         tags.append("standalone-column")
+    _column_level_drop(spec, table, call, tags, polars)
     if series:
         fs = spec["columns"][0]
         fs["regex"] = False
